@@ -8,6 +8,7 @@
 mod fams_a;
 mod fams_b;
 mod fams_c;
+mod fams_d;
 mod model;
 
 use std::collections::BTreeMap;
@@ -21,7 +22,9 @@ use vcore::{Report, Tier, Violation};
 // ---------------------------------------------------------------------------
 
 fn families_of(g: &G) -> Vec<u8> {
-    if g.mincost {
+    if g.n >= 5 {
+        vec![F_BIG] // large simple graphs: union-find / component algorithms only, cheap oracles
+    } else if g.mincost {
         vec![F_MINCOST]
     } else if g.edges.iter().any(|e| e.2 == WN) {
         vec![F_SP] // negative weights: only Bellman-Ford / Floyd-Warshall admit them
@@ -32,6 +35,16 @@ fn families_of(g: &G) -> Vec<u8> {
 
 fn run_families(g: &G, fams: &[u8]) -> Out {
     wd_begin(g.short());
+    if g.n >= 5 {
+        // no exhaustive path model for large graphs
+        let b = build(g);
+        let mut out = Out::new();
+        if fams.contains(&F_BIG) {
+            fams_d::fam_big(g, &b, &mut out);
+        }
+        wd_end();
+        return out;
+    }
     let m = model(g);
     let b = build(g);
     let mut out = Out::new();
@@ -116,7 +129,28 @@ fn rank(w: u8) -> usize {
     }
 }
 
+thread_local! {
+    static BIG_REDUCTIONS: std::cell::Cell<u32> = const { std::cell::Cell::new(0) };
+}
+
 fn attribute(g: &G, fam: u8, alg: &'static str, kind: &'static str) -> (String, G) {
+    if fam == F_BIG {
+        // feature is fixed; only the first few witnesses per worker are shrunk (edge deletion), to keep mutant runs fast
+        let mut cur = g.clone();
+        if BIG_REDUCTIONS.with(|c| { let v = c.get(); c.set(v + 1); v }) < 8 {
+            let mut i = 0;
+            while i < cur.edges.len() {
+                let mut h = cur.clone();
+                h.edges.remove(i);
+                if still_fails(&h, fam, alg, kind) {
+                    cur = h;
+                } else {
+                    i += 1;
+                }
+            }
+        }
+        return ("six-plus-nodes".to_string(), cur);
+    }
     let mut cur = g.clone();
     loop {
         let mut changed = false;
@@ -425,7 +459,7 @@ fn run(args: vcore::Args) -> i32 {
     let tier = args.tier;
     let mut rep = Report::new("C19", tier, "exploration");
     rep.max_samples = 12;
-    rep.rule = "ENUM: every labelled directed multigraph (self-loops, parallel and antiparallel edges, isolated nodes) of the listed (nodes, edges) shapes x every weight assignment from {1,2,0,missing} (plus -1 for Bellman-Ford/Floyd-Warshall; (capacity,cost) pairs for min-cost flow), each in two insertion orders, x every source/target/start choice and parameter variant; each real call is compared with a brute-force oracle (exhaustive simple-path, cycle, edge-subset, cut and integral-flow enumeration). evaluations = calls into the real code whose result was checked; a case is distinct by (graph, insertion order, property type) and non-trivial when it has at least one edge".into();
+    rep.rule = "ENUM: every labelled directed multigraph (self-loops, parallel and antiparallel edges, isolated nodes) of the listed (nodes, edges) shapes x every weight assignment from {1,2,0,missing} (plus -1 for Bellman-Ford/Floyd-Warshall; (capacity,cost) pairs for min-cost flow), each in two insertion orders, plus every labelled simple undirected graph on 6 (thorough: and 7) nodes with pairwise distinct weights in three insertion/orientation variants for the union-find / component algorithms, x every source/target/start choice and parameter variant; each real call is compared with a brute-force oracle (exhaustive simple-path, cycle, edge-subset, cut and integral-flow enumeration). evaluations = calls into the real code whose result was checked; a case is distinct by (graph, insertion order, property type) and non-trivial when it has at least one edge".into();
     let sps = spaces(tier);
     let mut space_rows = vec![];
     let mut sig_counts: BTreeMap<String, u64> = BTreeMap::new();
@@ -462,6 +496,61 @@ fn run(args: vcore::Args) -> i32 {
             }
         }
         space_rows.push(json!({"nodes": sp.n, "edges": sp.k, "alphabet": format!("{:?}", sp.alph), "int64_properties": sp.ints, "graphs_incl_insertion_orders": graphs.len(), "real_calls_checked": evals}));
+    }
+    // large simple graphs for the union-find / component algorithms (family union_find_large)
+    let big_ns: Vec<usize> = if tier == Tier::Thorough { vec![6, 7] } else { vec![6] };
+    rep.max_samples += 2 * big_ns.len();
+    for &n in &big_ns {
+        let np = n * (n - 1) / 2;
+        let total_masks: u32 = 1 << np;
+        let step: u32 = 512;
+        let ranges: Vec<(u32, u32)> = (0..total_masks).step_by(step as usize).map(|a| (a, (a + step).min(total_masks))).collect();
+        let shards = vcore::par_map(&ranges, vcore::cores(), |bi, &(a, b)| {
+            let mut sh = Shard { evals: 0, graphs: 0, nontrivial: vec![], tol: BTreeMap::new(), viols: vec![], sample: None };
+            for mask in a..b {
+                for variant in 0..fams_d::BIG_VARIANTS {
+                    if mask == 0 && variant > 0 {
+                        continue;
+                    }
+                    let g = fams_d::big_graph(n, mask, variant);
+                    let out = run_families(&g, &[F_BIG]);
+                    sh.evals += out.evals;
+                    sh.graphs += 1;
+                    if mask != 0 {
+                        sh.nontrivial.push(vcore::hash_of(&(n, mask, variant)));
+                    }
+                    if !out.raws.is_empty() {
+                        sh.viols.extend(violations_of(&g, &out));
+                    }
+                    if bi % 1000 == 7 && mask == a + 300 && variant == 1 {
+                        sh.sample = Some(json!({"graph": g.short(), "real_calls_checked": out.evals, "violating_checks": out.raws.iter().map(|r| format!("{}:{}", r.alg, r.kind)).collect::<Vec<_>>()}));
+                    }
+                }
+            }
+            sh
+        });
+        let mut evals = 0;
+        let mut graphs = 0;
+        for sh in shards {
+            evals += sh.evals;
+            graphs += sh.graphs;
+            rep.evaluations += sh.evals;
+            total_graphs += sh.graphs;
+            for h in sh.nontrivial {
+                rep.nontrivial_hash(h);
+            }
+            if let Some(s) = sh.sample {
+                rep.sample(s);
+            }
+            for v in sh.viols {
+                let c = sig_counts.entry(v.sig_string()).or_default();
+                *c += 1;
+                if *c <= CAP_PER_SIG {
+                    rep.violation(v);
+                }
+            }
+        }
+        space_rows.push(json!({"nodes": n, "edges": format!("every subset of the {np} node pairs (simple undirected graphs)"), "alphabet": "distinct weights; 3 variants: ascending i->j / every second edge reversed / descending with reversed weights", "family": "union_find_large", "algorithms": if n <= 6 { "connected_components(+count), strongly_connected_components(+count), kruskal, articulation_points, bridges" } else { "connected_components(+count), strongly_connected_components(+count), kruskal" }, "graphs_incl_insertion_orders": graphs, "real_calls_checked": evals}));
     }
     if rep.samples.is_empty() {
         rep.sample(json!({"graph": "n=0", "note": "only trivial spaces"}));
